@@ -392,6 +392,41 @@ func runC09(c *Ctx) {
 	// renderers: FastLog / String methods are analysed with their caller's locks. A call that renders a shared object
 	// (line.Struct(host), host.String(), entry.FastLog(line)) reads every guarded field the renderer touches, so the
 	// call site must hold what those fields need.
+	// fields that are not in the guarded-by table: a write to any field of a struct that carries a lock (or of Host, which
+	// lives under its MAC entry's row lock) happens with some lock held, in a constructor, on a freshly made object - or is
+	// one of the sites listed here with the reason why no lock is needed. A new field written from a function that several
+	// goroutines run (a scratch buffer shared by the spoof loops, say) has no entry in the table and lands here.
+	r.Rule("unlisted-writes", "writes to fields of lock-bearing structs outside the guarded-by table hold a lock or are listed single-writer sites", 3)
+	{
+		allowed := map[string]string{
+			"dhcp4_spoofer.Handler.mode in (*dhcp4_spoofer.Handler).SetMode": "configuration call, not part of the concurrent API C09 lists",
+			"packet.MACEntry.HostList in (*packet.MACEntry).link":            "helper without callers; the guarded-by rule covers it through its caller's locks as soon as it has one",
+			"packet.Session.Statistics in (*packet.Session).Parse":           "written by the packet loop only (the one goroutine that runs Parse)",
+		}
+		seenAllowed := map[string]bool{}
+		anU := locks.Analyse(c.P, c.P.LibFunctions(), isConstructor)
+		kgu := core.NewKeyGen()
+		for _, w := range unlockedWrites(c, anU) {
+			site := w
+			pos := ""
+			if j := strings.Index(w, " at "); j > 0 {
+				site, pos = w[:j], w[j+4:]
+			}
+			key := site
+			if j := strings.Index(site, " through "); j > 0 {
+				key = site[:j]
+			}
+			if why, ok := allowed[key]; ok {
+				if !seenAllowed[key] {
+					seenAllowed[key] = true
+					r.Add(core.Obligation{Rule: "unlisted-writes", Key: "unlisted-writes " + key, Func: "-", Pos: pos, Status: core.Proved, Basis: "listed single-writer site: " + why})
+				}
+				continue
+			}
+			r.Add(core.Obligation{Rule: "unlisted-writes", Key: strings.TrimSuffix(kgu.Key("unlisted-writes "+site), "#0"), Func: "-", Pos: pos, Status: core.Violated,
+				Detail: "write to " + site + " with no lock held: the struct carries a lock, the field is not in the guarded-by table and the site is not a listed single-writer site - goroutines that run this function concurrently (spoof loops, API callers) race on it"})
+		}
+	}
 	r.Rule("render-sites", "objects with guarded fields are rendered (FastLog/String) under the locks those fields need", 20)
 	reads := map[string]map[string]bool{} // "pkg.Type" -> fields read by its renderers
 	for _, fn := range fns {
@@ -704,9 +739,13 @@ func renderSite(c *Ctx, an *locks.Analysis, fn *ssa.Function, i ssa.Instruction,
 				ok = true
 			}
 		}
+		// a struct value copied out of *p: the object is p's; a pointer loaded from a local variable: the object is what
+		// was stored there (freshBase follows the variable), not the variable's own cell
 		base := obj
-		if ld, isLoad := obj.(*ssa.UnOp); isLoad {
-			base = ld.X
+		if _, isPtr := obj.Type().Underlying().(*types.Pointer); !isPtr {
+			if ld, isLoad := obj.(*ssa.UnOp); isLoad {
+				base = ld.X
+			}
 		}
 		if !ok && freshBase(base, 0) {
 			ok = true
